@@ -111,6 +111,14 @@ func c05Leaf(k int, su, ss string, regMode int) (interface{}, interface{}) {
 	case 19:
 		// a SafeFormatter that emits unsafe data with io.WriteString / WriteString on the printer
 		return c05SFWS{su}, c05SFWSPlain{}
+	case 20:
+		// under Safe(): a SafeFormatter that prints plain operands through
+		// the nested Print and Printf of its printer: the outermost wrapper
+		// decides for both routes, everything stays visible
+		return redact.Safe(c05SFPrint{ss}), c05SFPrintPlain{ss + "7" + ss + ";7"}
+	case 21:
+		// the same without a wrapper: only the Printf literal is safe
+		return c05SFPrint{su}, c05SFPrintPlain{";"}
 	case 16:
 		// a pointer whose type is a SafeValue: its address is safe text
 		// (same pointer on both sides; used with %p formats)
@@ -154,6 +162,17 @@ func (x c05SFWS) SafeFormat(p redact.SafePrinter, verb rune) {
 	}
 	p.SafeString(".")
 }
+
+type c05SFPrint struct{ s string }
+
+func (x c05SFPrint) SafeFormat(p redact.SafePrinter, verb rune) {
+	p.Print(x.s, 7)
+	p.Printf("%v;%d", x.s, 7)
+}
+
+type c05SFPrintPlain struct{ s string }
+
+func (x c05SFPrintPlain) Format(st fmt.State, verb rune) { st.Write([]byte(x.s)) }
 
 type c05SFWSPlain struct{}
 
